@@ -1,7 +1,7 @@
 /-
   String-level facts of the walk model: on rendered component paths `_calculate_depth` counts the
-  components, `combine(dir, name)` renders the extended component list, and the file glob string
-  `dir_path + "/" + name` does too — except directly below the root, where it is `"//name"`.
+  components, `combine(dir, name)` — the glob string of directory *and* file entries — renders the
+  extended component list, and `abspath(normpath(·))` of a rendered path gives back its components.
 -/
 import FsModel.Walk
 import FsProofs.Lemmas.PathLemmas
@@ -55,19 +55,25 @@ theorem dirGlobPath_eq (dir : WPath) (k : Name) (h : Clean (dir ++ [k])) :
   · subst hne; simp [render, joinWith, rstripSlash, lstripSlash]
   · rw [render_eq_mkp, rstripSlash_mkp hd hne, render_eq_mkp, mkp_snoc k hne]
 
-/-- the glob string of a file entry is the rendered extended path below any directory but the root -/
-theorem fileGlobPath_eq (dir : WPath) (k : Name) (hne : dir ≠ []) :
-    fileGlobPath dir k = render (dir ++ [k]) := by
-  unfold fileGlobPath
-  rw [render_eq_mkp, render_eq_mkp, mkp_snoc k hne]
+/-- the glob string of a file entry is the rendered extended path (since fix a47d87a: everywhere,
+the root included) -/
+theorem fileGlobPath_eq (dir : WPath) (k : Name) (h : Clean (dir ++ [k])) :
+    fileGlobPath dir k = render (dir ++ [k]) := dirGlobPath_eq dir k h
 
-/-- directly below the root the file glob string is `"//" + name`, which is not the path `"/" + name` -/
-theorem fileGlobPath_root (k : Name) : fileGlobPath [] k = '/' :: '/' :: k := rfl
-
-theorem fileGlobPath_root_ne_render (k : Name) (h : CleanComp k) : fileGlobPath [] k ≠ render [k] := by
-  intro e
-  simp only [fileGlobPath_root, render, joinWith, List.cons.injEq, true_and] at e
-  have : '/' ∈ k := by rw [← e]; simp
-  exact h.2.2.2 this
+/-- `abspath(normpath(p))` of the path string of a clean component list (absolute or relative
+spelling) has exactly these components -/
+theorem startOf_mkp (a : Bool) (cs : WPath) (h : Clean cs) : startOf (mkp a cs) = .ok cs := by
+  unfold startOf
+  rw [normpath_mkp h]
+  simp only [Res.map, abspath_mkp h, PathSpec.comps, splitSlash, splitOn_mkp h]
+  congr 1
+  by_cases hne : cs = []
+  · subst hne; simp
+  · simp only [hne, if_false, if_true, List.cons_append, List.nil_append]
+    rw [List.filter_cons]
+    simp only [ne_eq, not_true_eq_false, decide_false, Bool.false_eq_true, if_false]
+    rw [List.filter_eq_self]
+    intro c hc
+    simpa using (clean_ne_nil h) c hc
 
 end Fs.WalkPathLemmas
